@@ -664,9 +664,48 @@ def rule_gap_rewrite(chk, prog):
         (r.bad if bad else r.ok)(name, fn.loc(lp), bad or "")
 
 
+_PAIR_SITES_REVIEWED = {
+    "Avoid::ImproveOrthogonalRoutes::buildOrthogonalNudgingOrderInfo": "conn = connRefs[ind1], conn2 = connRefs[ind2] with ind2 starting at ind1 + 1: two "
+                                                                         "different entries of the router's connector list",
+}
+
+
+def rule_pair_distinct(chk, prog):
+    from ..rules.guards import path_condition, atoms
+    r = chk.rule("PAIR-IDS-DISTINCT", "UnsignedPair(id, id) asserts that its two ids differ: every pair built from the connector ids of two nudging "
+                 "segments is built under a condition that says the two segments belong to different connectors (consecutive segments of ONE "
+                 "connector meet at a checkpoint), or at the reviewed site where the connectors are two distinct list entries", floor=2)
+    n = 0
+    for fn in prog.all_functions():
+        if not fn.body or "/libavoid/" not in fn.file:
+            continue
+        for c in fn.nodes():
+            if c.get("k") not in ("CXXTemporaryObjectExpr", "CXXConstructExpr", "CXXFunctionalCastExpr") or "UnsignedPair" not in str(c.get("cname", "")) + str(c.get("t", "")):
+                continue
+            a = call_args(c)
+            if len(a) != 2:
+                continue
+            n += 1
+            r.count()
+            x, y = norm(a[0]), norm(a[1])
+            ox, oy = x.rsplit(".id()", 1)[0], y.rsplit(".id()", 1)[0]
+            ats = atoms(path_condition(fn, c, inline=False))
+            inst = "UnsignedPair(%s, %s) in %s" % (x, y, fn.q)
+            if any(a_ in ("(%s != %s)" % (ox, oy), "(%s != %s)" % (oy, ox)) for a_ in ats):
+                r.ok(inst, fn.loc(c), "under %s != %s" % (ox, oy))
+            elif fn.q in _PAIR_SITES_REVIEWED:
+                r.ok(inst, fn.loc(c), "reviewed: " + _PAIR_SITES_REVIEWED[fn.q])
+            else:
+                r.bad(inst, fn.loc(c), "the pair is built although nothing on the path says that %s and %s are different connectors: UnsignedPair asserts "
+                      "ind1 != ind2" % (ox, oy))
+    if n < 2:
+        raise AnalysisBroken("UnsignedPair constructions not found (%d)" % n)
+
+
 def run(chk):
     prog = chk.load()
     cg = CallGraph(prog)
+    chk.guard(rule_pair_distinct, chk, prog)
     chk.guard(rule_end_segments, chk, prog)
     chk.guard(rule_fixed_stays, chk, prog)
     chk.guard(rule_no_growth, chk, prog, cg)
